@@ -316,9 +316,11 @@ class FuncModel:
     def reads(self, e: ast.AST, at: N | None) -> set[str]:
         """Locations read by expression e: local names and heap locations."""
         out: set[str] = set()
+        bound = {x.id for c in ast.walk(e) if isinstance(c, ast.comprehension) for x in ast.walk(c.target) if isinstance(x, ast.Name)}
         for n in ast.walk(e):
             if isinstance(n, ast.Name) and isinstance(n.ctx, ast.Load):
-                out.add(n.id)
+                if n.id not in bound:   # variables of comprehensions are not read from the enclosing scope
+                    out.add(n.id)
             elif isinstance(n, ast.Subscript) and isinstance(n.slice, ast.Constant) \
                     and isinstance(n.slice.value, str):
                 if self.handle(n.value, at) is not None and n.slice.value not in IMMUTABLE_FIELDS:
